@@ -46,6 +46,33 @@ class S_:
 T = typing.TypeVar("T")
 
 
+LOG = []
+
+
+def _cname(cls):
+    return cls.__name__.split("[")[0].rstrip("LE_0123456789")
+
+
+def _pre_ser(self):
+    LOG.append(("pre_ser", _cname(type(self))))
+    return self
+
+
+def _post_ser(self, d):
+    LOG.append(("post_ser", _cname(type(self))))
+    return d
+
+
+def _pre_de(cls, d):
+    LOG.append(("pre_de", _cname(cls)))
+    return d
+
+
+def _post_de(cls, obj):
+    LOG.append(("post_de", _cname(type(obj))))
+    return obj
+
+
 def build(mode, tag, mixin=DataClassORJSONMixin):
     """Family: Inner, Outer(Inner, List[Inner], Optional[int]), Sub(Outer), Gen[T], Node(self-referencing).
     mode: eager | lazy | postponed (Outer/Node refer to classes by name before they exist)."""
@@ -55,7 +82,10 @@ def build(mode, tag, mixin=DataClassORJSONMixin):
         cfg["lazy_compilation"] = True
 
     def ns(q):
-        return {"Config": type("Config", (BaseConfig,), dict(cfg)), "__module__": __name__, "__qualname__": q + tag}
+        # every class logs its four hooks: the hook trace is part of the outcome that must not depend on compilation timing
+        return {"Config": type("Config", (BaseConfig,), dict(cfg)), "__module__": __name__, "__qualname__": q + tag,
+                "__pre_serialize__": _pre_ser, "__post_serialize__": _post_ser,
+                "__pre_deserialize__": classmethod(_pre_de), "__post_deserialize__": classmethod(_post_de)}
 
     names = {}
 
@@ -112,7 +142,8 @@ TARGETS = ["Outer", "Inner", "Sub", "Node", "Holder", "Mixed"]
 METHODS = ["to_dict", "from_dict", "to_fmt", "from_fmt"]
 DIALECTS = [None, D1]
 OPS = [(t, m, dj) for t in TARGETS for m in METHODS for dj in (0, 1)]
-OPS_QUICK = [(t, m, dj) for t in ("Outer", "Holder", "Mixed") for m in METHODS for dj in (0, 1)]
+OPS_QUICK = ([(t, m, dj) for t in ("Outer", "Mixed") for m in METHODS for dj in (0, 1)]
+             + [("Holder", m, dj) for m in ("to_dict", "from_fmt") for dj in (0, 1)])
 
 
 def concrete(names, target, a=1, o=None, date=None, n=1):
@@ -133,6 +164,12 @@ def concrete(names, target, a=1, o=None, date=None, n=1):
 
 def run_op(names, op, x, fmt):
     """-> ('ok', canonical result) | ('exc', type name)"""
+    del LOG[:]
+    st, r = _run_op(names, op, x, fmt)
+    return (st, r, tuple(LOG))
+
+
+def _run_op(names, op, x, fmt):
     target, method, dj = op
     cls = names[target]
     kw = {"dialect": DIALECTS[dj]} if DIALECTS[dj] is not None else {}
@@ -200,6 +237,8 @@ def main(S, env):
             if a != b:
                 if a[0] == "exc" and a[1] == "RecursionError":
                     return fail("C14/first-call-recursed:%s" % S.mode, ops=ops, at=j)
+                if a[:2] == b[:2]:
+                    return fail("C14/hook-trace-differs-from-eager-twin:%s" % S.mode, ops=ops, at=j, got=a[2], eager=b[2])
                 if a[0] == "exc" and b[0] == "ok":
                     return fail("C14/call-failed-only-in-%s-mode:%s" % (S.mode, a[1]), ops=ops, at=j, eager=b)
                 return fail("C14/outcome-differs-from-eager-twin:%s" % S.mode, ops=ops, at=j, got=a, eager=b)
